@@ -178,3 +178,66 @@ def all_orders(n):
 
 def canonical(g):
     return sorted((n["id"], n["type"], sorted(n["parents"])) for n in g["nodes"])
+
+
+# -- "wide" graphs: one feature with more than 1000 direct children -------------------------------------------
+def wide_params(rng):
+    """Parameters (JSON-able, small) of a wide graph: `n` direct children of one hub; the children listed in
+    `bearing` have children of their own - several of them are among the LAST children (numbers >= 1000)."""
+    n = rng.randrange(1005, 1101)
+    late = set(rng.sample(range(1000, n), rng.randrange(3, 6)))
+    late.add(n - 1)
+    late.add(rng.randrange(1000, 1003))
+    early = {rng.randrange(0, 4), rng.randrange(4, 1000)}   # number >= 1000 when the lines are written in reverse
+    return {"seed": rng.randrange(10 ** 9), "n": n, "bearing": sorted(early | late)}
+
+
+def wide_graph(p):
+    """The graph of wide_params(): hub gene 'G' (+ a second gene named by a few children), n transcripts, exons under
+    the bearing transcripts (some also name the hub = shortcut, some name two transcripts), one part under an exon."""
+    import random
+
+    rng = random.Random(p["seed"] * 31 + 7)
+    n, bearing = p["n"], list(p["bearing"])
+
+    def node(nid, ft, layer, start, end, parents):
+        return {"id": nid, "type": ft, "seqid": "chr1", "start": start, "end": end, "strand": "+", "layer": layer,
+                "parents": parents, "style": rng.choice(["comma", "comma", "repeat"]),
+                "idpos": rng.choice(["first", "first", "last"]), "name": None}
+
+    nodes = [node("G", "gene", 0, 1, 20 * n + 50, []), node("G2", "gene", 0, 5, 900, [])]
+    for i in range(n):
+        ps = ["G"]
+        if rng.random() < 0.03:
+            ps.insert(rng.randrange(2), "G2")
+        nodes.append(node("t%d" % i, "mRNA", 1, 1 + 20 * i, 18 + 20 * i, ps))
+    exons = []
+    for i in bearing:
+        for j in range(rng.randrange(1, 4)):
+            ps = ["t%d" % i]
+            r = rng.random()
+            if r < 0.3:
+                ps.append("G")                                   # shortcut: G -> exon at level 1 and at level 2
+            elif r < 0.5:
+                other = rng.choice(bearing)
+                if other != i:
+                    ps.append("t%d" % other)                     # shared child
+            rng.shuffle(ps)
+            e = node("e%d.%d" % (i, j), rng.choice(["exon", "exon", "CDS"]), 2, 2 + 20 * i + 5 * j, 5 + 20 * i + 5 * j, ps)
+            exons.append(e)
+            nodes.append(e)
+    last = [e for e in exons if e["parents"] and ("t%d" % bearing[-1]) in e["parents"]][0]
+    nodes.append(node("part", "match_part", 3, last["start"], last["start"] + 1, [last["id"]]))
+    return {"nodes": nodes, "edge": "raw"}
+
+
+def order_of_spec(n, spec):
+    """Line order from a small spec: ["forward"] | ["reverse"] | ["shuffle", seed]."""
+    import random
+
+    o = list(range(n))
+    if spec[0] == "reverse":
+        o.reverse()
+    elif spec[0] == "shuffle":
+        random.Random(spec[1]).shuffle(o)
+    return o
